@@ -28,6 +28,10 @@ type keySys struct {
 	// originAge: Age header the origin adds to cacheable answers ("" = none)
 	originAge string
 	lastObs   string
+	// store: "" none, "ttl" store that expires records itself, "lazy" store that hands back expired records
+	store string
+	st    *env.FaultStore
+	memLost bool // after a restart a refetch is always acceptable instead of a hit
 }
 
 type keyEvent struct {
@@ -43,11 +47,17 @@ func (s *keySys) Enabled(ev int) bool     { return true }
 func (s *keySys) EventName(ev int) string { return s.events[ev].Name }
 
 func (s *keySys) Reset() {
+	if s.store != "" {
+		s.st = env.NewFaultStore()
+		s.st.HonorTTL = s.store == "ttl"
+		s.st.Register(s.cfg.Caches[0].Store)
+	}
 	s.e = getEnv(s.cfg, s.cfgKey)
 	freshCaches(s.cfg)
 	vtime.Set(vtime.Base)
 	s.spec = oracle.Entry{P: s.P}
 	s.serial = 0
+	s.memLost = false
 	s.e.Events()
 	s.e.Respond = func(oc *env.OriginCall) env.OriginResp {
 		switch s.answer.Ans {
@@ -71,6 +81,14 @@ func (s *keySys) Apply(ev int) (string, string, string) {
 		vtime.Add(e.D)
 		return "tick", "", ""
 	}
+	if e.Kind == "restart" {
+		freshCaches(s.cfg)
+		if s.store == "" {
+			s.spec = oracle.Entry{P: s.P}
+		}
+		s.memLost = true
+		return "restart", "", ""
+	}
 	s.answer = e
 	now := vtime.Get()
 	r := s.e.Do(env.Req{URI: "/k1", Rid: "r"})
@@ -82,6 +100,14 @@ func (s *keySys) Apply(ev int) (string, string, string) {
 		oage, _ = strconv.ParseInt(s.originAge, 10, 64)
 	}
 	ans := oracle.Answer{Cacheable: e.Ans == "cacheable", T: int64(e.T) - oage, Fail: e.Ans == "error", Serial: "new"}
+	if s.memLost {
+		// "either served again unchanged or refetched": a persisted entry may legitimately be gone
+		probe := s.spec
+		if l, _, _, _ := probe.Request(now, ans); l == "hit" && r.XStatus == "fetching" {
+			s.spec.Purge()
+		}
+		s.memLost = false
+	}
 	label, contact, serial, age := s.spec.Request(now, ans)
 	if serial == "new" && contacts > 0 {
 		if s.spec.Kind == oracle.Hit && s.spec.Serial == "new" {
@@ -140,6 +166,9 @@ func (s *keySys) Key() string {
 				k = fmt.Sprintf("st%d/noexp/resp%v", sn.Status, sn.Resp != nil)
 			}
 		}
+	}
+	if s.st != nil {
+		k += "|" + s.st.Snapshot(now)
 	}
 	return k + "|" + s.spec.String(now)
 }
